@@ -266,7 +266,7 @@ func (root *Root) addTypes(types ...Type) error {
 	return root.ReplaceRefs()
 }
 
-func (root *Root) addExtends(extends ...*Extend) (err error) {
+func (root *Root) addExtends(extends ...*Extend) (undo []func(), err error) {
 	for _, x := range extends {
 		if err = root.replaceTypeRefs(x.Adds); err != nil {
 			return
@@ -281,16 +281,70 @@ func (root *Root) addExtends(extends ...*Extend) (err error) {
 			cur = root.schema
 		}
 		if cur == nil {
-			return fmt.Errorf("%s can not be extended because it was %w", x.Adds.Name(), ErrNotFound)
+			return undo, fmt.Errorf("%s can not be extended because it was %w", x.Adds.Name(), ErrNotFound)
 		}
 		if reflect.TypeOf(x.Adds) != reflect.TypeOf(cur) {
-			return fmt.Errorf("%w: %s, a %T can not extend a %T", ErrTypeMismatch, x.Adds.Name(), x.Adds, cur)
+			return undo, fmt.Errorf("%w: %s, a %T can not extend a %T", ErrTypeMismatch, x.Adds.Name(), x.Adds, cur)
 		}
+		undo = append(undo, extendUndo(cur))
 		if err = cur.Extend(x.Adds); err != nil {
 			return
 		}
 	}
-	return nil
+	return undo, nil
+}
+
+// extendUndo notes the members and directives a type has now and returns a
+// function that drops everything added after that.
+func extendUndo(t Type) func() {
+	dropFields := func(fl *fieldList) func() {
+		n := len(fl.list)
+		return func() {
+			for _, f := range fl.list[n:] {
+				delete(fl.dict, f.N)
+			}
+			fl.list = fl.list[:n]
+		}
+	}
+	var fns []func()
+	if d, ok := t.(interface{ dirUses() *[]*DirectiveUse }); ok {
+		dirs := d.dirUses()
+		n := len(*dirs)
+		fns = append(fns, func() { *dirs = (*dirs)[:n] })
+	}
+	switch tt := t.(type) {
+	case *Object:
+		n := len(tt.Interfaces)
+		fns = append(fns, dropFields(&tt.fields), func() { tt.Interfaces = tt.Interfaces[:n] })
+	case *Schema:
+		fns = append(fns, dropFields(&tt.fields))
+	case *Interface:
+		fns = append(fns, dropFields(&tt.fields))
+	case *Input:
+		n := len(tt.fields.list)
+		fns = append(fns, func() {
+			for _, f := range tt.fields.list[n:] {
+				delete(tt.fields.dict, f.N)
+			}
+			tt.fields.list = tt.fields.list[:n]
+		})
+	case *Enum:
+		n := len(tt.values.list)
+		fns = append(fns, func() {
+			for _, ev := range tt.values.list[n:] {
+				delete(tt.values.dict, string(ev.Value))
+			}
+			tt.values.list = tt.values.list[:n]
+		})
+	case *Union:
+		n := len(tt.Members)
+		fns = append(fns, func() { tt.Members = tt.Members[:n] })
+	}
+	return func() {
+		for _, fn := range fns {
+			fn()
+		}
+	}
 }
 
 // GetType returns the type that matches the provided name or nil if none
@@ -322,23 +376,32 @@ func (root *Root) ParseReader(r io.Reader) error {
 	// revert to the original version.
 	origTypes := root.types
 	origDirs := root.dirs
+	origSchema := root.schema
 	root.types = origTypes.dup()
 	root.dirs = origDirs.dup()
+
+	// Extend blocks change types that already exist. What they add is
+	// noted so it can be taken out again if the load fails later on.
+	var undo []func()
 
 	types, extends, err := parseSDL(root, r)
 	if err == nil {
 		err = root.addTypes(types...)
 	}
 	if err == nil {
-		err = root.addExtends(extends...)
+		undo, err = root.addExtends(extends...)
 	}
 	if err == nil {
 		root.assureSchema()
 		err = root.validate()
 	}
 	if err != nil {
+		for i := len(undo) - 1; 0 <= i; i-- {
+			undo[i]()
+		}
 		root.types = origTypes
 		root.dirs = origDirs
+		root.schema = origSchema
 	}
 	return err
 }
